@@ -438,6 +438,77 @@ def check_server_case(case, counters, sets):
     return viols
 
 
+def check_kafka_case(case, counters, sets):
+    """the batched Kafka source (in-memory client of vf/kafka_fake.py) through start/stop histories in virtual time: its
+    polling loop is the coroutine poll_kafka(); at no time may two of them be alive once the loop has had a turn after
+    the call that would have started the second, and no range may be handed out twice"""
+    from tornado import gen
+    from .. import kafka_fake
+    from streamz import Stream
+    viols, seen = [], set()
+
+    def add(key, what):
+        if key not in seen:
+            seen.add(key)
+            viols.append({'key': key, 'what': what, 'case': case})
+    broker = kafka_fake.Broker('topic', 1)
+    for _ in range(4):
+        broker.produce(0)
+    kafka_fake.install(broker)
+    with virtual_env() as env:
+        loop = env.loop
+        with R.recording(env.now) as log:
+            broker.log = log
+            if case.get('kind') == 'from_kafka':
+                src_node = src = Stream.from_kafka(['topic'], {'bootstrap.servers': 'fake', 'group.id': 'g'}, poll_interval=1.0, asynchronous=True)
+            else:
+                src_node = Stream.from_kafka_batched('topic', {'bootstrap.servers': 'fake', 'group.id': 'g', 'auto.offset.reset': 'earliest'},
+                                                     poll_interval=1.0, max_batch_size=2, asynchronous=True)
+                src = src_node.upstreams[0]
+            active = {'n': 0}
+            orig = src.poll_kafka
+
+            @gen.coroutine
+            def poll_tagged():
+                active['n'] += 1
+                log.add('RUN_BEGIN', 'src', active['n'])
+                try:
+                    yield orig()
+                finally:
+                    active['n'] -= 1
+                    log.add('RUN_END', 'src', active['n'])
+            src.poll_kafka = poll_tagged
+            ranges = []
+            if src is not src_node:
+                src.sink(lambda part: ranges.append((part[4], part[5])))
+            src_node.sink(lambda batch: None)
+            t = 0.0
+            for k, (gap, op) in enumerate(case['ops']):
+                loop.drive(until_vt=loop.time() + gap, max_iters=50000)
+                if k % 2 == 0:
+                    broker.produce(0)
+                for call in {'start': ['start'], 'stop': ['stop'], 'stopstart': ['stop', 'start']}[op]:
+                    try:
+                        getattr(src_node, call)() if call == 'start' else getattr(src, call)()
+                    except Exception as ex:            # noqa: BLE001
+                        add('C18:%s-raised:%s@kafka_%s' % (call, type(ex).__name__, case.get('kind', 'batched')), 'op %d: %s() raised %r' % (k, call, ex))
+                loop.drive(until_vt=loop.time() + 0.01, max_iters=5000)          # one turn: a freshly scheduled loop begins
+                counters['kafka_lifecycle_points_checked'] = counters.get('kafka_lifecycle_points_checked', 0) + 1
+                if active['n'] > 1:
+                    add('C18:two-polling-loops@kafka_%s' % case.get('kind', 'batched'), 'after op %d (%s at t=%s) %d poll_kafka() loops are alive; history %s'
+                        % (k, op, loop.time(), active['n'], case['ops'][:k + 1]))
+            src.stop()
+            loop.drive(until_vt=loop.time() + 3.0, max_iters=50000)
+            if active['n'] != 0:
+                add('C18:polling-loop-survives-stop@kafka_%s' % case.get('kind', 'batched'), '%d poll_kafka() loops are still alive 3 poll intervals after stop()' % active['n'])
+            if len(set(ranges)) != len(ranges):
+                add('C18:duplicate-or-out-of-order@kafka_%s' % case.get('kind', 'batched'), 'ranges handed out: %s' % ranges[:20])
+            broker.log = None
+    counters['restart_histories'] = counters.get('restart_histories', 0) + 1
+    sets.setdefault('source_kinds', set()).add('kafka_batched')
+    return viols
+
+
 def check_process_case(case, counters, sets):
     """from_process on a real event loop (real time, wide margins): a child prints a line every 30 ms; the source is stopped
     while the child is alive and still printing.  The read in progress may deliver one more line; the reading loop must
@@ -494,6 +565,14 @@ def run_shard(seed, tier, shard, nshards):
             out['violations'].extend(v)
             out['keys'].append(progs.prog_key(case, None))
     for k in range(n_cases(tier) // 10):
+        case = {'kafka': True, 'ops': [[rng.choice([0, 0.25, 0.5, 1.0, 1.5, 2.5]), rng.choice(['start', 'stop', 'stopstart', 'stopstart', 'start'])]
+                                       for _ in range(rng.randrange(1, 8))]}
+        case['ops'].insert(0, [0, 'start'])
+        case['kind'] = rng.choice(['batched', 'batched', 'from_kafka'])
+        out['violations'].extend(check_kafka_case(case, out['counters'], out['sets']))
+        out['evaluations'] += 1
+        out['keys'].append(progs.prog_key(case, None))
+    for k in range(n_cases(tier) // 10):
         case = gen_server_case(rng)
         out['violations'].extend(check_server_case(case, out['counters'], out['sets']))
         out['evaluations'] += 1
@@ -514,6 +593,8 @@ def run_shard(seed, tier, shard, nshards):
 
 
 def replay(case):
+    if case.get('kafka'):
+        return check_kafka_case(case, {}, {})
     if case.get('process'):
         return check_process_case(case, {}, {}) or []
     if case.get('server'):
